@@ -9,7 +9,8 @@ EXPLANATION = (
     "its inverse (never swapped); store_relation and remove_relation both touch the meta table and the meta index; every "
     "catalog/index tuple is stamped with the executing transaction's id (Snapshot::xid, never xmin or a constant); "
     "every ALTER action and column-action variant has an apply arm and an inverse arm; irreversible page deallocation "
-    "inside a statement is reported (known finding D17, shared with C03.6).")
+    "inside a statement is reported (known finding D17, shared with C03.6); the DROPs replayed by recovery cascade "
+    "to the table's indexes (shared with C08.5).")
 NOT_DECIDED = "readability of old rows under the new schema after ALTER (decoding semantics); name-visibility histories"
 ASSUMPTIONS = []
 
@@ -159,3 +160,9 @@ def check(cx):
         cx.ok(r4, "none", "", "no DDL-reachable caller of Btree::dealloc")
     for c in callers:
         cx.bad(r4, "caller:" + c, p.fn(c).where(), "DROP TABLE frees the tree's pages inside the transaction (D17)")
+
+    # ---- C15.6 recovery replays DROPs with the statement's catalog effect (same construct as C08.5) -------------------
+    from . import c08
+    cx.include(c08, {"C08.5"}, "C15.6", "shared with C08.5: every DROP that recovery replays is if_exists and a replayed DROP TABLE "
+               "cascades to the table's indexes, so that the catalog after recovery holds no index without its table", floor=6,
+               skip=(":guarded",))
